@@ -174,14 +174,17 @@ def main_benign(rest):
 
     scale = 3
     ids = []
+    only = None
     for r in rest:
         if r.startswith("--scale="):
             scale = int(r.split("=", 1)[1])
+        elif r.startswith("--checks="):
+            only = r.split("=", 1)[1].split(",")  # re-run these checks only, keep the recorded rows of the others
         elif not r.startswith("--"):
             ids.append(r)
     results = {}
     path = os.path.join(VERIF_DIR, "benign", "RESULTS.json")
-    if os.path.exists(path) and ids:
+    if os.path.exists(path) and (ids or only):
         results = json.load(open(path))
     alarms = 0
     for ppath in sorted(glob.glob(os.path.join(VERIF_DIR, "benign", "*", "patch.diff"))):
@@ -190,11 +193,18 @@ def main_benign(rest):
             continue
         scratch = make_scratch(ppath)
         row = {"tests": None, "alarms": {}}
+        if only and bid in results:
+            row = results[bid]
+            for pid in only:
+                row["alarms"].pop(pid, None)
         try:
-            code, out = sh([PY, "-m", "pytest", "-q", "-p", "no:cacheprovider", "-x"], scratch)
-            row["tests"] = code
+            if not (only and bid in results):
+                code, out = sh([PY, "-m", "pytest", "-q", "-p", "no:cacheprovider", "-x"], scratch)
+                row["tests"] = code
             for i in range(1, 21):
                 pid = "C%02d" % i
+                if only and pid not in only:
+                    continue
                 mod = importlib.import_module("aslsim.checks." + pid.lower())
                 runs = max(300, mod.BUDGET["quick"] // scale)
                 code, text = sh([PY, os.path.join(VERIF_DIR, "run.py"), "check", pid, "--runs", str(runs), "--no-evidence"],
